@@ -1,6 +1,8 @@
 use cfg_aliases::cfg_aliases;
 
 fn main() {
+    // verification hooks are guarded by `--cfg iroh_docs_verif`
+    println!("cargo::rustc-check-cfg=cfg(iroh_docs_verif)");
     // Setup cfg aliases
     cfg_aliases! {
         // Convenience aliases
